@@ -317,9 +317,6 @@ theorem maxExtent_klein :
   show cmp2 (rvExtent [((0:ℕ):ℝ)] [Real.pi]) Real.pi = _
   rw [Nat.cast_zero]
 
-theorem maxExtent_sphere (r : ℝ) :
-    maxExtent (Space.sphere r) = cmp2 Real.pi (rvExtent [0] [Real.pi]) := by
-  show cmp2 Real.pi (rvExtent [((0:ℕ):ℝ)] [Real.pi]) = _
-  rw [Nat.cast_zero]
+theorem maxExtent_sphere (r : ℝ) : maxExtent (Space.sphere r) = Real.pi * r := rfl
 
 end OmplModel.SpaceDist.Seam
